@@ -121,7 +121,8 @@ def get_file_grouping_properties(values):
     return values[1], read_id_column_index, group_id_column_index, delim
 
 
-def prepare_read_groups(args, sample):
+def prepare_read_groups(args, sample, chr_ids=None):
+    # chr_ids: the sequences that will be processed (those of the reference genome); None = every sequence of the BAM headers
     if not hasattr(args, "read_group") or args.read_group is None:
         return
     option = args.read_group
@@ -130,7 +131,7 @@ def prepare_read_groups(args, sample):
         return
     table_filename, read_id_column_index, group_id_column_index, delim = get_file_grouping_properties(values)
     logger.info("Splitting read group file %s for better memory consumption" % table_filename)
-    split_read_group_table(table_filename, sample, read_id_column_index, group_id_column_index, delim)
+    split_read_group_table(table_filename, sample, read_id_column_index, group_id_column_index, delim, chr_ids)
 
 
 def create_read_grouper(args, sample, chr_id):
@@ -203,8 +204,12 @@ def load_split_table(split_file):
     return read_map
 
 
-def split_read_group_table(table_file, sample, read_id_column_index, group_id_column_index, delim):
+def split_read_group_table(table_file, sample, read_id_column_index, group_id_column_index, delim, chr_ids=None):
     read_groups = load_table(table_file, read_id_column_index, group_id_column_index, delim)
+    # only the sequences of the reference genome are processed (and their names are checked by
+    # check_chromosome_file_names): a sequence that only a BAM header lists gets no table - its alignments are
+    # never read, and its name (e.g. one with a path separator) need not be usable in a file name
+    processed_sequences = None if chr_ids is None else set(chr_ids)
     read_group_files = {}
     processed_reads = defaultdict(set)
     bam_files = list(map(lambda x: x[0], sample.file_list))
@@ -212,11 +217,13 @@ def split_read_group_table(table_file, sample, read_id_column_index, group_id_co
     for bam_file in bam_files:
         bam = pysam.AlignmentFile(bam_file, "rb")
         for chr_id in bam.references:
+            if processed_sequences is not None and chr_id not in processed_sequences:
+                continue
             if chr_id not in read_group_files:
                 read_group_files[chr_id] = open(sample.read_group_file + "_" + chr_id, "w", newline='\n')
         for read_alignment in bam:
             chr_id = read_alignment.reference_name
-            if not chr_id:
+            if not chr_id or chr_id not in read_group_files:
                 continue
 
             read_id = read_alignment.query_name
